@@ -16,12 +16,16 @@ from common import *
 
 ID = 'C06'
 COQ_FILES = ['Base/Mat.v', 'Base/ListX.v', 'Model/Signed.v', 'Model/NullModel.v', 'Proofs/Signed.v',
+             'Proofs/NullModelLists.v', 'Proofs/NullModel.v', 'Proofs/NullModelTop.v', 'Proofs/NullModelCorr.v',
              'Properties/C06.v']
-THEOREMS = ['C06_pick4_distinct', 'C06_signed_step_inv', 'C06_signed_step_inv_general', 'C06_signed_run_inv']
+THEOREMS = ['C06_pick4_distinct', 'C06_pick4_digits', 'C06_pick4_needs_4', 'C06_signed_step_inv', 'C06_signed_step_inv_general',
+            'C06_signed_run_inv', 'C06_signed_run_inv_general', 'C06_deal_multiset_corr_def',
+            'C06_null_model_inv_general', 'C06_null_model_rewiring_inv', 'C06_null_model_und_rejects',
+            'C06_corr3_var', 'C06_corr3_cov']
 RULE = ('signed integer matrices, weights in -4..4 \\ {0}, n = 4..9, densities 0.3-1.0, directed for *_dir / symmetric for '
         '*_und; families: both signs present (mixed), one sign only, fully connected positive support (rewiring skipped), '
         'sparse, all-equal magnitudes (many ties), nonzero input diagonal (null_model clears it); itr/bin_swaps in {0,1,2,5}, '
-        'wei_freq in {0, 0.1, 0.4, 0.5, 1}; plus asymmetric input to null_model_und_sign (rejection). '
+        'wei_freq in {0, 0.1, 0.25, 0.3, 0.4, 0.5, 1}; plus asymmetric input to null_model_und_sign (rejection). '
         'non-trivial = at least one accepted swap or at least two weights dealt; distinct by hash of (function, matrix, parameters, seed)')
 ASSUMES = ['weights are small integers: every float operation the model treats as exact (moves, sign tests, s*w, W0+W0.T, sums of strengths) is exact in binary64',
            'the recorded stream splits by kind: every rng.randint precedes the first rng.permutation (checked on each run)',
@@ -154,7 +158,7 @@ def run(ctx):
     lines, pend = [], []
 
     # ---------- pick_four_unique_nodes_quickly
-    for t in range(ctx.scale(300, 3000)):
+    for t in range(ctx.scale(600, 6000)):
         n = int(r.choice([4, 4, 5, 6, 7, 9, 12, 30]))
         rec = Rec(int(r.randint(1 << 30)))
         q = call(pick_four_unique_nodes_quickly, n, rec)
@@ -172,7 +176,7 @@ def run(ctx):
         pend.append(('pick4', case, q, None))
 
     # ---------- randmio_dir_signed / randmio_und_signed
-    for t in range(ctx.scale(70, 700)):
+    for t in range(ctx.scale(150, 1500)):
         for und in (0, 1):
             fn = 'randmio_und_signed' if und else 'randmio_dir_signed'
             A, fam = gen_matrix(ctx, und)
@@ -208,8 +212,8 @@ def run(ctx):
             pend.append(('rs', case, (R, int(eff), events), None))
 
     # ---------- null_model_dir_sign / null_model_und_sign
-    wfs = [(F(0), 0.0), (F(1, 10), 0.1), (F(1, 2), 0.5), (F(1), 1.0), (F(2, 5), 0.4)]
-    for t in range(ctx.scale(110, 1100)):
+    wfs = [(F(0), 0.0), (F(1, 10), 0.1), (F(1, 2), 0.5), (F(1), 1.0), (F(2, 5), 0.4), (F(1, 4), 0.25), (F(3, 10), 0.3)]
+    for t in range(ctx.scale(250, 2500)):
         for und in (0, 1):
             fn = 'null_model_und_sign' if und else 'null_model_dir_sign'
             A, fam = gen_matrix(ctx, und)
@@ -343,3 +347,54 @@ def round_half_even(x):
     if r > F(1, 2):
         return f + 1
     return f if f % 2 == 0 else f + 1
+
+
+def replay(ctx, payload):
+    """./check C06 --replay <file>: re-run the recorded case on the current tree and re-evaluate the oracle"""
+    import bct, json
+    from bct.utils import _verif
+    case = payload.get('case') or payload.get('detail', {}).get('case')
+    if not case:
+        print(json.dumps(payload, indent=1)); return 0
+    fn = case['fn']
+    print('replaying', json.dumps(case))
+    if fn == 'pick_four_unique_nodes_quickly':
+        class Fixed(object):
+            def __init__(self, xs): self.xs = list(xs)
+            def randint(self, *a, **k): return self.xs.pop(0)
+        import bct.utils.miscellaneous_utilities as mu
+        old = mu.get_rng; mu.get_rng = lambda s=None: s
+        try:
+            q = tuple(int(x) for x in mu.pick_four_unique_nodes_quickly(case['n'], Fixed(case['draws'])))
+        finally:
+            mu.get_rng = old
+        ok = len(set(q)) == 4 and all(0 <= x < case['n'] for x in q)
+        print('returned', q, 'OK' if ok else 'VIOLATED: not four distinct nodes < n')
+        return 0 if ok else 1
+    A = np.array(case['W'])
+    und = fn.endswith('und_signed') or fn.endswith('und_sign')
+    _verif.reset()
+    if case.get('malformed'):
+        try:
+            bct.null_model_und_sign(A.astype(float), 1, 0.5, seed=Rec(1)); print('VIOLATED: asymmetric input accepted'); return 1
+        except bct.utils.BCTParamError:
+            print('rejected: OK'); return 0
+    if fn.startswith('randmio'):
+        R, eff = getattr(bct, fn)(A.astype(float), case['itr'], seed=Rec(case['seed']))
+        oracle_matrix(ctx, fn, A.tolist(), R.tolist(), und, case, diag_clause='same' if case.get('family') == 'diag' else 'empty')
+        print('output', R.tolist(), 'eff', eff)
+    else:
+        W0, cc = getattr(bct, fn)(A.astype(float), case['bin_swaps'], case['wei_freq'], seed=Rec(case['seed']))
+        Ac = clear_diag(A)
+        if oracle_matrix(ctx, fn, Ac, W0.tolist(), und, case):
+            sa, so = strengths(Ac), strengths([[int(x) for x in row] for row in W0.tolist()])
+            for k in range(4):
+                ctx.check(corr_close(corr3(sa[k], so[k]), cc[k]), fn + ':corr', 'correlation %d differs from corrcoef of the strength sequences' % k, case)
+        print('output', W0.tolist(), 'corr', [float(x) for x in cc])
+    for f in ctx.oracle_fail:
+        print('VIOLATED', f['key'], f['what'])
+    for k, h in ctx.known_hits.items():
+        print('KNOWN-FINDING', k, h['what'])
+    if not ctx.oracle_fail:
+        print('all clauses hold on this input')
+    return 1 if ctx.oracle_fail else 0
